@@ -1183,3 +1183,24 @@ Proof.
   - cbn [map]. now rewrite app_nil_r.
   - rewrite IH. cbn [map]. now rewrite <- !app_assoc.
 Qed.
+
+(* ---------- the adjacency test of the scan, as the C++ writes it ---------- *)
+(* pattern.find_first_of('(', arg_identifier_pos) - arg_identifier_pos == 1, at a '%': the first
+   '(' at or after the '%' is one position further, i.e. the character after the '%' is '(' —
+   which is what find_attr tests *)
+Fixpoint find_first (c : N) (s : bytes) : option nat :=
+  match s with
+  | [] => None
+  | x :: t => if N.eqb x c then Some 0 else option_map S (find_first c t)
+  end.
+
+Lemma adjacency_test t :
+  find_first c_lp (c_pct :: t) = Some 1 <-> exists r, t = c_lp :: r.
+Proof.
+  split.
+  - cbn [find_first]. change (N.eqb c_pct c_lp) with false. cbv iota.
+    destruct t as [|d r]; cbn [find_first option_map]; [discriminate|].
+    destruct (N.eqb_spec d c_lp) as [E|E]; [subst; eauto|].
+    destruct (find_first c_lp r); cbn [option_map]; discriminate.
+  - intros [r ->]. reflexivity.
+Qed.
